@@ -13,7 +13,7 @@ ID = "C02"
 LEVEL = "exploration"
 RULE = (
     "Hypothesis draws runs over all objective families x boxes (biased narrow, every bound kind incl. lb==ub) x feasible starts on faces/vertices x "
-    "{callable, None, 2-point, 3-point, cs} x maxcor/maxls/maxiter 0..60/maxfun 1..400; every argument of fun/jac (stencil points included), every callback "
+    "{callable, None, 2-point, 3-point, cs} x maxcor/maxls/maxiter 0..60/maxfun 1..400 (problems also in other units, with args / per-variable steps / line-search options), plus re-entrant objectives that run an inner minimisation with another box; every argument of fun/jac (stencil points included), every callback "
     "iterate and the result are tested with exact comparisons. non-trivial = the run did >=1 iteration and some logged point has a component exactly on a finite bound; "
     "distinct = distinct run spec"
 )
@@ -71,6 +71,54 @@ def check(rspec, stats=None):
                     f"family={rspec['problem']['obj'].get('bench', rspec['problem']['obj']['family'])}"])
 
 
+def check_nested(spec, stats=None):
+    """The user's objective may itself call the minimiser (bilevel problems, multi-start inside a callback ...).
+    Every point at which the *outer* objective is evaluated must lie in the *outer* box -- whatever boxes other,
+    nested, runs use."""
+    outer = build(spec["outer"]["problem"])
+    inner = build(spec["inner"]["problem"])
+    from vf.observe import Trace, run_min
+
+    lb, ub = outer.lb, outer.ub
+    nest_every = spec["nest_every"]
+    state = {"n": 0, "busy": False}
+
+    def gate(kind):
+        if kind != "f" or state["busy"]:
+            return
+        state["n"] += 1
+        if state["n"] % nest_every == 0:
+            state["busy"] = True
+            try:
+                run_min(inner, dict(spec["inner"]["cfg"]), jac_mode=spec["inner"]["jac"])
+            finally:
+                state["busy"] = False
+
+    tr = run_min(outer, dict(spec["outer"]["cfg"]), jac_mode=spec["outer"]["jac"], gate=gate, callback="passive")
+    if tr.exc is not None:
+        msg = str(tr.exc)
+        if isinstance(tr.exc, ValueError) and ("bound" in msg.lower() or "shape" in msg.lower()):
+            raise Violation("inside-box[nested-run-disturbs-outer-stencil]", f"outer run raised {type(tr.exc).__name__}: {msg[:160]}")
+        raise tr.exc
+    for x, _ in tr.fun_calls:
+        xr = np.real(x)
+        if not in_box(xr, lb, ub):
+            i = int(np.nonzero((xr < lb) | (xr > ub))[0][0])
+            raise Violation("inside-box[objective-evaluation,nested]", f"outer jac={spec['outer']['jac']!r}: component {i} = {xr[i]!r} outside [{lb[i]!r}, {ub[i]!r}] while an inner run with another box was nested in the objective")
+    if stats is not None:
+        on = any(bool(np.any((np.real(x) == lb) | (np.real(x) == ub))) for x, _ in tr.fun_calls)
+        stats.case(spec, on and tr.res["nit"] >= 1, ["kind=nested", f"jac={spec['outer']['jac']}", f"onbound={on}"],
+                   sample={"outer": spec["outer"]["problem"]["obj"]["family"], "inner": spec["inner"]["problem"]["obj"]["family"], "outer_jac": spec["outer"]["jac"], "inner_jac": spec["inner"]["jac"]})
+
+
+@st.composite
+def nested_strategy(draw):
+    fd = (None, "2-point", "3-point")
+    o = draw(run_spec(families=ALL_FAMILIES, n_max=4, jac_modes=fd, maxiter=(1, 8), maxfun=(5, 80), narrow=True, ftols=(0.0,), gtols=(1e-8,), box_mode=draw(st.sampled_from(["boxed", "mixed"]))))
+    i = draw(run_spec(families=ALL_FAMILIES, n_max=4, jac_modes=fd + ("callable",), maxiter=(1, 4), maxfun=(3, 30), ftols=(0.0,), gtols=(1e-8,)))
+    return {"outer": o, "inner": i, "nest_every": draw(st.sampled_from([1, 2, 3, 5]))}
+
+
 def strategy():
     return run_spec(families=ALL_FAMILIES, n_max=10, jac_modes=JAC_MODES + ("callable",), maxiter=(0, 60), maxfun=(1, 400), narrow=True, units=True, extras=True,
                     ftols=(0.0, 1e-12, 1e-5), gtols=(1e-8, 1e-6, 1e-5))
@@ -78,7 +126,11 @@ def strategy():
 
 def shard(ctx):
     ctx.hyp("runs", strategy(), check, ctx.pick(12000, 200000))
+    ctx.hyp("nested", nested_strategy(), check_nested, ctx.pick(1500, 25000))
 
 
 def replay(spec):
-    check(spec, None)
+    if "outer" in spec:
+        check_nested(spec, None)
+    else:
+        check(spec, None)
